@@ -74,7 +74,7 @@ func runWorker(opt Options, c *Check, shard, n int, deadline time.Time, out *mer
 		prog := filepath.Join(dir, "progress")
 		resPath := filepath.Join(dir, "result.json")
 		os.Remove(resPath)
-		os.WriteFile(prog, make([]byte, 8), 0o644)
+		os.WriteFile(prog, make([]byte, 16), 0o644)
 		args := []string{"--worker", opt.Prop, "--tier", opt.Tier, "--shard", strconv.Itoa(shard), "--nshards", strconv.Itoa(n),
 			"--deadline", strconv.FormatInt(deadline.Unix(), 10), "--resume", strconv.FormatInt(resume, 10),
 			"--progress", prog, "--seed", strconv.FormatInt(opt.Seed, 10), "--result", resPath}
@@ -107,7 +107,7 @@ func runWorker(opt Options, c *Check, shard, n int, deadline time.Time, out *mer
 		go func() { doneCh <- cmd.Wait() }()
 		var werr error
 		hung := false
-		last := readProgress(prog)
+		last := readLiveness(prog)
 		lastChange := time.Now()
 	loop:
 		for {
@@ -115,7 +115,7 @@ func runWorker(opt Options, c *Check, shard, n int, deadline time.Time, out *mer
 			case werr = <-doneCh:
 				break loop
 			case <-time.After(1 * time.Second):
-				cur := readProgress(prog)
+				cur := readLiveness(prog)
 				if cur != last {
 					last = cur
 					lastChange = time.Now()
@@ -224,6 +224,20 @@ func readProgress(path string) int64 {
 		return -1
 	}
 	return int64(binary.LittleEndian.Uint64(b))
+}
+
+// readLiveness: the case index combined with the heartbeat word (see RunCtx.Expired)
+func readLiveness(path string) [2]uint64 {
+	b, err := os.ReadFile(path)
+	var out [2]uint64
+	if err != nil || len(b) < 8 {
+		return out
+	}
+	out[0] = binary.LittleEndian.Uint64(b)
+	if len(b) >= 16 {
+		out[1] = binary.LittleEndian.Uint64(b[8:])
+	}
+	return out
 }
 
 func firstFatalLine(s string) string {
